@@ -316,8 +316,20 @@ impl Ctx<'_> {
     }
 }
 
+/// Does the harness itself see on disk exactly the files of its model?  (false = environment trouble:
+/// full disk, descriptor exhaustion, somebody cleaning the temp directory - never a verdict)
+fn model_is_on_disk(probe: &Probe) -> bool {
+    probe.files.iter().all(|f| matches!(std::fs::read(probe.immutable_dir.join(&f.name)), Ok(c) if c == f.content))
+}
+
+/// where the database of an observation lives and what the harness wrote there
+struct Probe<'a> {
+    immutable_dir: PathBuf,
+    files: Vec<&'a FileSpec>,
+}
+
 /// Judge one observation against the reference. `context` names the class of the observation.
-fn judge(mon: &mut Monitor, ctx: &Ctx, context: &str, detail: &Value, exp: &Expect, obs: &Obs) {
+fn judge(mon: &mut Monitor, ctx: &Ctx, context: &str, detail: &Value, exp: &Expect, obs: &Obs, probe: &Probe) {
     mon.eval();
     mon.count(&format!("obs:{context}:{}", obs.tag()));
     match (exp, obs) {
@@ -335,11 +347,17 @@ fn judge(mon: &mut Monitor, ctx: &Ctx, context: &str, detail: &Value, exp: &Expe
                 );
             }
         }
-        (Expect::Root(r), Obs::Err { class, msg }) => mon.violation(
-            &format!("C12 computation fails although every covered file is present ({context}; {class})"),
-            &format!("expected root {r}, observed error {msg}; step {detail}"),
-            ctx.replay(context, detail, exp, obs),
-        ),
+        (Expect::Root(r), Obs::Err { class, msg }) => {
+            if model_is_on_disk(probe) {
+                mon.violation(
+                    &format!("C12 computation fails although every covered file is present ({context}; {class})"),
+                    &format!("expected root {r}, observed error {msg}; step {detail}"),
+                    ctx.replay(context, detail, exp, obs),
+                );
+            } else {
+                mon.inconclusive(&format!("the temp database is not readable as written by the harness (environment): {class}: {msg}"));
+            }
+        }
         (Expect::NoBeaconFile, Obs::Err { .. }) => mon.count("expected_error:no_file_numbered_as_the_beacon"),
         (Expect::NoBeaconFile, Obs::Root(_)) => mon.count("diag:root_returned_without_a_file_numbered_as_the_beacon"),
     }
@@ -564,7 +582,10 @@ fn run_script(env: &Env, mon: &mut Monitor, ctx: &Ctx, script: &Script, files: &
                 };
                 let exp = expectation(files, o.beacon, mon);
                 let detail = json!({"script": script.name, "slots": format!("{:?}", script.slots), "history": history, "beacon": o.beacon, "epoch": epoch});
-                judge(mon, ctx, class, &detail, &exp, &obs);
+                judge(mon, ctx, class, &detail, &exp, &obs, &Probe { immutable_dir: db.immutable_dir(), files: files.iter().collect() });
+                if ctx.shard == 0 && ctx.world == 1 && history.len() == script.ops.len() && script.name.starts_with("json: two") && mon.wants_sample() {
+                    mon.sample(json!({"space": class, "script": script.name, "history": history, "beacon": o.beacon, "observed": obs.short(), "expected": format!("{exp:?}")}));
+                }
             }
         }
     }
@@ -731,8 +752,8 @@ fn run_world(env: &Env, mon: &mut Monitor, rng: &mut ChaCha20Rng, shard: u64, wo
             Ok(db) => {
                 let d = no_cache(env);
                 let obs = observe_tree(env, &d, &db.root, 1, b);
-                judge(mon, &ctx, "no cache, only the covered files", &json!({"beacon": b, "layout": "clean"}), &exp, &obs);
-                if mon.wants_sample() && shard < 2 && world == 0 {
+                judge(mon, &ctx, "no cache, only the covered files", &json!({"beacon": b, "layout": "clean"}), &exp, &obs, &Probe { immutable_dir: db.immutable_dir(), files: only.clone() });
+                if mon.wants_sample() && shard < 2 && world == 0 && b > 0 {
                     mon.sample(json!({"space": "clean layout", "beacon": b, "covered_files": covered_n, "files_beyond": beyond_n,
                         "first_files": files.iter().take(4).map(|f| json!({"name": f.name, "len": f.content.len()})).collect::<Vec<_>>(),
                         "observed": obs.short(), "expected": format!("{exp:?}")}));
@@ -765,10 +786,10 @@ fn run_world(env: &Env, mon: &mut Monitor, rng: &mut ChaCha20Rng, shard: u64, wo
             let detail = json!({"beacon": b, "epoch": epoch, "creation_order": if shuffled { "shuffled" } else { "by name" },
                 "files_beyond_the_beacon": if with_beyond { beyond_n } else { 0 }, "other_files": ex.iter().map(|e| e.rel.clone()).collect::<Vec<_>>(), "path": via, "layout": l});
             let obs = observe_tree(env, &d, &path, epoch, b);
-            judge(mon, &ctx, "no cache, layout variant", &detail, &exp, &obs);
+            judge(mon, &ctx, "no cache, layout variant", &detail, &exp, &obs, &Probe { immutable_dir: db.immutable_dir(), files: sel.clone() });
             if via == "db" {
                 let obs2 = observe_message(env, d.clone(), &path, epoch, b);
-                judge(mon, &ctx, "no cache, layout variant, signable builder", &detail, &exp, &obs2);
+                judge(mon, &ctx, "no cache, layout variant, signable builder", &detail, &exp, &obs2, &Probe { immutable_dir: db.immutable_dir(), files: sel.clone() });
             }
         }
         if with_beyond {
@@ -801,7 +822,7 @@ fn run_world(env: &Env, mon: &mut Monitor, rng: &mut ChaCha20Rng, shard: u64, wo
         for x in others {
             let e = expectation(&files, x, mon);
             let obs = observe_tree(env, &d, &db.root, 3, x);
-            judge(mon, &ctx, "no cache, other beacon on the same directory", &json!({"beacon": x}), &e, &obs);
+            judge(mon, &ctx, "no cache, other beacon on the same directory", &json!({"beacon": x}), &e, &obs, &Probe { immutable_dir: db.immutable_dir(), files: files.iter().collect() });
         }
     }
 
@@ -813,7 +834,7 @@ fn run_world(env: &Env, mon: &mut Monitor, rng: &mut ChaCha20Rng, shard: u64, wo
     // D. perturbations, no cache
     let d = no_cache(env);
     let base = observe_tree(env, &d, &db.root, 2, b);
-    judge(mon, &ctx, "no cache, layout variant", &json!({"beacon": b, "layout": "full, before perturbations"}), &exp, &base);
+    judge(mon, &ctx, "no cache, layout variant", &json!({"beacon": b, "layout": "full, before perturbations"}), &exp, &base, &Probe { immutable_dir: db.immutable_dir(), files: files.iter().collect() });
     if let (Obs::Root(r0), Expect::Root(_)) = (&base, &exp) {
         for _ in 0..perturbations {
             // inside the covered set
@@ -823,6 +844,10 @@ fn run_world(env: &Env, mon: &mut Monitor, rng: &mut ChaCha20Rng, shard: u64, wo
                 mon.count(&format!("perturbation_inside:{kind}:{}", obs.tag()));
                 let detail = json!({"beacon": b, "perturbation": kind, "where": pdesc});
                 mon.nontrivial_str(&format!("{r0}|inside|{detail}"));
+                if shard == 0 && world == 2 && mon.wants_sample() && mon.counter("sampled_inside") == 0 {
+                    mon.count("sampled_inside");
+                    mon.sample(json!({"space": "perturbation inside the covered set", "step": detail, "root_before": r0, "observed_after": obs.short()}));
+                }
                 match &obs {
                     Obs::Root(r) if r == r0 => mon.violation(
                         &format!("C12 root unchanged by a change inside the covered set (no cache; {kind})"),
@@ -838,7 +863,7 @@ fn run_world(env: &Env, mon: &mut Monitor, rng: &mut ChaCha20Rng, shard: u64, wo
                 }
                 // and the new root is the reference root of the changed database
                 let e2 = expectation(&after, b, mon);
-                judge(mon, &ctx, "no cache, after a change inside the covered set", &detail, &e2, &obs);
+                judge(mon, &ctx, "no cache, after a change inside the covered set", &detail, &e2, &obs, &Probe { immutable_dir: db.immutable_dir(), files: after.iter().collect() });
                 if undo(u).is_err() {
                     mon.inconclusive("harness i/o error while restoring a file");
                     return;
@@ -851,6 +876,10 @@ fn run_world(env: &Env, mon: &mut Monitor, rng: &mut ChaCha20Rng, shard: u64, wo
                 mon.count(&format!("perturbation_outside:{kind}:{}", obs.tag()));
                 let detail = json!({"beacon": b, "perturbation": kind, "where": pdesc});
                 mon.nontrivial_str(&format!("{r0}|outside|{detail}"));
+                if shard == 0 && world == 2 && mon.wants_sample() && mon.counter("sampled_outside") == 0 {
+                    mon.count("sampled_outside");
+                    mon.sample(json!({"space": "perturbation outside the covered set", "step": detail, "root_before": r0, "observed_after": obs.short()}));
+                }
                 if obs != base {
                     mon.violation(
                         &format!("C12 result changed by a change outside the covered set (no cache; {kind})"),
@@ -866,7 +895,7 @@ fn run_world(env: &Env, mon: &mut Monitor, rng: &mut ChaCha20Rng, shard: u64, wo
         }
         // everything restored: same root again
         let again = observe_tree(env, &d, &db.root, 2, b);
-        judge(mon, &ctx, "no cache, layout variant", &json!({"beacon": b, "layout": "full, after all perturbations were undone"}), &exp, &again);
+        judge(mon, &ctx, "no cache, layout variant", &json!({"beacon": b, "layout": "full, after all perturbations were undone"}), &exp, &again, &Probe { immutable_dir: db.immutable_dir(), files: files.iter().collect() });
     }
 }
 
@@ -903,8 +932,8 @@ fn main() {
         mon.inconclusive(&format!("cannot create {}: {e}", base.display()));
     }
     let (shards, worlds, max_trios, layouts, perturbations) = match args.tier {
-        Tier::Quick => (16u64, 40u64, 30u64, 4u64, 8u64),
-        Tier::Thorough => (64, 400, 30, 6, 16),
+        Tier::Quick => (16u64, 20u64, 30u64, 4u64, 8u64),
+        Tier::Thorough => (64, 300, 30, 6, 16),
     };
     let b = base.clone();
     vcore::run_shards(&mut mon, shards, vcore::default_threads(), |s, m| run_shard(s, m, &b, worlds, max_trios, layouts, perturbations));
